@@ -65,17 +65,61 @@ func keyString(k any) string {
 	return fmt.Sprintf("%v", k)
 }
 
+// sortCanonical orders keys canonically: strings by value, AST / types objects by source position
+// (their String() - expensive for types.Object - is only consulted to break ties), everything else by
+// its printed form.
+func sortCanonical[K comparable](keys []K) {
+	if len(keys) < 2 {
+		return
+	}
+	var probe any = keys[0]
+	if _, isPoser := probe.(poser); isPoser {
+		type ent struct {
+			k   K
+			pos token.Pos
+			s   string
+			has bool
+		}
+		es := make([]ent, len(keys))
+		for i, k := range keys {
+			es[i] = ent{k: k, pos: any(k).(poser).Pos()}
+		}
+		str := func(e *ent) string {
+			if !e.has {
+				e.has = true
+				if st, ok := any(e.k).(fmt.Stringer); ok {
+					e.s = st.String()
+				} else {
+					e.s = fmt.Sprintf("%v", e.k)
+				}
+			}
+			return e.s
+		}
+		sort.SliceStable(es, func(i, j int) bool {
+			if es[i].pos != es[j].pos {
+				return es[i].pos < es[j].pos
+			}
+			return str(&es[i]) < str(&es[j])
+		})
+		for i := range es {
+			keys[i] = es[i].k
+		}
+		return
+	}
+	strs := make(map[K]string, len(keys))
+	for _, k := range keys {
+		strs[k] = keyString(k)
+	}
+	sort.SliceStable(keys, func(i, j int) bool { return strs[keys[i]] < strs[keys[j]] })
+}
+
 func Map[M ~map[K]V, K comparable, V any](site string, m M) iter.Seq2[K, V] {
 	return func(yield func(K, V) bool) {
 		keys := make([]K, 0, len(m))
 		for k := range m {
 			keys = append(keys, k)
 		}
-		strs := make(map[K]string, len(keys))
-		for _, k := range keys {
-			strs[k] = keyString(k)
-		}
-		sort.SliceStable(keys, func(i, j int) bool { return strs[keys[i]] < strs[keys[j]] })
+		sortCanonical(keys)
 		mu.Lock()
 		p, ok := policy[site]
 		if !ok {
